@@ -6,6 +6,7 @@
   "stub_note": "dispatch_data_*: range model; _dispatch_retain/_dispatch_release/dispatch_resume/dispatch_suspend: logged; handler: recorded" }
 VERIF*/
 #ifdef VERIF_PRE
+struct dispatch_queue_s; void __verif_block_begin_dispatch_async(struct dispatch_queue_s *q); void __verif_block_end(void);
 #else
 #include "contracts/C14/io_common.h"
 /* pre-state of a READ operation between two steps (established by _dispatch_operation_perform, see h_perform_read):
@@ -19,8 +20,9 @@ size_t H_D, H_U, H_BL, H_low, H_high; dispatch_op_flags_t H_opflags0; int H_err0
 #define DELIVERED(flags) (SHOULD_DELIVER(flags) && !SUPPRESSED(flags))
 #define ERR_OUT(flags) ((((flags) & (DOP_DELIVER|DOP_DONE)) || (H_opflags0 & DOP_DELIVER)) ? (H_err0 ? H_err0 : (H_stopped ? ECANCELED : 0)) : 0)
 VERIF_CONTRACT_VOID(_dispatch_operation_deliver_data, (dispatch_operation_t op, dispatch_op_flags_t flags),
+  REQ(_dispatch_data_empty.size == 0)
   REQ(op == &H_op && __verif_n == 0 && H_calls == 0 && H_asyncs == 0 && !H_order_broken && !H_pool_exhausted && H_creates == 0)
-  REQ(op->direction == DOP_DIR_READ && op->handler == h_handler && op->channel == &H_chan && op->fd_entry == &H_fde && op->op_q == &H_opq && H_fde.close_queue == &H_closeq)
+  REQ(op->direction == DOP_DIR_READ && H_HANDLER_IS(op->handler) && op->channel == &H_chan && op->fd_entry == &H_fde && op->op_q == &H_opq && H_fde.close_queue == &H_closeq)
   REQ(op->params.low == H_low && op->params.high == H_high && H_low <= H_high && op->flags == H_opflags0 && op->err == H_err0 && (H_chan.atomic_flags & DIO_STOPPED) == (H_stopped ? DIO_STOPPED : 0))
   REQ(op->undelivered == H_U && op->buf_len == H_BL && op->data == H_data0 && H_data0->size == H_U && (H_U == 0 || h_dlo(H_data0) == H_D))
   REQ(H_BL <= op->buf_siz && op->buf == H_buf0 && (H_BL == 0 || H_buf0 != 0) && H_bufpos == H_D + H_U && op->total == H_D + H_U + H_BL)
@@ -65,11 +67,11 @@ VERIF_CONTRACT_VOID(_dispatch_operation_deliver_data, (dispatch_operation_t op, 
 )
 void harness(void)
 {
-	VERIF_GHOST_RESET(); __verif_crash_is_bug = 1;
+	VERIF_GHOST_RESET(); __verif_crash_is_bug = 1; _dispatch_data_empty.size = 0;
 	H_D = ND(size_t); H_U = ND(size_t); H_BL = ND(size_t); H_low = ND(size_t); H_high = ND(size_t);
 	H_opflags0 = ND(dispatch_op_flags_t); H_err0 = ND(int); H_stopped = ND_BOOL();
 	__CPROVER_assume(H_low <= H_high && H_high <= (1ull << 40) && H_U <= H_high && H_D <= (1ull << 62));
-	H_op.direction = DOP_DIR_READ; H_op.handler = h_handler; H_op.channel = &H_chan; H_op.fd_entry = &H_fde; H_op.op_q = &H_opq; H_fde.close_queue = &H_closeq;
+	H_op.direction = DOP_DIR_READ; H_op.handler = H_HANDLER; H_op.channel = &H_chan; H_op.fd_entry = &H_fde; H_op.op_q = &H_opq; H_fde.close_queue = &H_closeq;
 	H_op.params.low = H_low; H_op.params.high = H_high; H_op.flags = H_opflags0; H_op.err = H_err0;
 	H_chan.atomic_flags = (H_stopped ? DIO_STOPPED : 0) | (ND_BOOL() ? DIO_CLOSED : 0);
 	H_op.length = ND(size_t);
